@@ -60,11 +60,15 @@ func reservedTableOf(c *core.Ctx, lang string) (*reservedTable, *packages.Packag
 					if !ok || !types.Identical(m.Key(), types.Typ[types.String]) {
 						continue
 					}
+					t := &reservedTable{obj: obj, keys: map[string]bool{}, pos: n.Pos()}
 					cl, ok := vs.Values[i].(*ast.CompositeLit)
 					if !ok {
+						// a set built from lists of words: `newNameSet(keywords, builtinTypeNames)`
+						if ce, isCall := vs.Values[i].(*ast.CallExpr); isCall && setFromLists(c, p, ce, t.keys) {
+							return t, p
+						}
 						continue
 					}
-					t := &reservedTable{obj: obj, keys: map[string]bool{}, pos: n.Pos()}
 					for _, e := range cl.Elts {
 						kv, ok := e.(*ast.KeyValueExpr)
 						if !ok {
@@ -82,6 +86,91 @@ func reservedTableOf(c *core.Ctx, lang string) (*reservedTable, *packages.Packag
 		}
 	}
 	return nil, p
+}
+
+// setFromLists: ce calls a same-package function that returns a map and whose body stores every element of its
+// (variadic) slice parameters as a key; the arguments are []string literals or package variables initialised once
+// with such literals. The words are added to keys.
+func setFromLists(c *core.Ctx, p *packages.Package, ce *ast.CallExpr, keys map[string]bool) bool {
+	info := p.TypesInfo
+	f := core.Callee(info, ce)
+	if f == nil || f.Pkg() != p.Types {
+		return false
+	}
+	fd := c.Decl(f.Origin())
+	if fd == nil || fd.Body == nil {
+		return false
+	}
+	// the body ranges (possibly twice) down to a string that is stored as a map key, with no condition around it
+	stores := false
+	conditional := false
+	ast.Inspect(fd.Body, func(n ast.Node) bool {
+		switch x := n.(type) {
+		case *ast.IfStmt, *ast.SwitchStmt:
+			conditional = true
+		case *ast.AssignStmt:
+			for _, l := range x.Lhs {
+				if ix, ok := ast.Unparen(l).(*ast.IndexExpr); ok {
+					if _, isMap := info.TypeOf(ix.X).Underlying().(*types.Map); isMap {
+						if id, ok := ast.Unparen(ix.Index).(*ast.Ident); ok {
+							if v, ok := info.ObjectOf(id).(*types.Var); ok && types.Identical(v.Type(), types.Typ[types.String]) {
+								stores = true
+							}
+						}
+					}
+				}
+			}
+		}
+		return true
+	})
+	if !stores || conditional {
+		return false
+	}
+	var words func(e ast.Expr, depth int) bool
+	words = func(e ast.Expr, depth int) bool {
+		switch x := ast.Unparen(e).(type) {
+		case *ast.CompositeLit:
+			for _, el := range x.Elts {
+				tv, ok := info.Types[el]
+				if !ok || tv.Value == nil || tv.Value.Kind() != constant.String {
+					return false
+				}
+				keys[constant.StringVal(tv.Value)] = true
+			}
+			return true
+		case *ast.Ident:
+			if depth > 2 {
+				return false
+			}
+			obj := info.ObjectOf(x)
+			for _, file := range p.Syntax {
+				for _, d := range file.Decls {
+					gd, ok := d.(*ast.GenDecl)
+					if !ok || gd.Tok != token.VAR {
+						continue
+					}
+					for _, sp := range gd.Specs {
+						vs := sp.(*ast.ValueSpec)
+						for i, nm := range vs.Names {
+							if info.Defs[nm] == obj && i < len(vs.Values) {
+								return words(vs.Values[i], depth+1)
+							}
+						}
+					}
+				}
+			}
+		}
+		return false
+	}
+	if len(ce.Args) == 0 {
+		return false
+	}
+	for _, a := range ce.Args {
+		if !words(a, 0) {
+			return false
+		}
+	}
+	return true
 }
 
 // N1
@@ -161,6 +250,15 @@ func ruleIdentifierHelpers(c *core.Ctx) {
 				continue
 			}
 			lk := findReservedLookup(sf, t.obj, c)
+			if lk == nil {
+				// the helper hands the converted identifier to a same-package escaping helper
+				if g, arg := delegatesTo(sf); g != nil {
+					if why := escapesItsParameter(g, t.obj, c); why == "" {
+						c.OK(rule, key, fd.Pos(), fmt.Sprintf("returns %s(`%s`): %s looks its parameter up, returns it when not reserved and a value derived from it otherwise", g.Name(), valueText(arg), g.Name()))
+						continue
+					}
+				}
+			}
 			if lk == nil {
 				c.Bad(rule, key, fd.Pos(), fmt.Sprintf("%s derives a target-language identifier from a model name without consulting %s: a name that converts to a keyword (e.g. namespace 'Class' -> 'class') is emitted verbatim", fd.Name.Name, t.obj.Name()))
 				continue
@@ -249,6 +347,96 @@ func ruleIdentifierHelpers(c *core.Ctx) {
 			c.Bad(rule, key, fd.Pos(), bad)
 		}
 	}
+}
+
+// delegatesTo: every return of fn returns the result of one call g(x) of a same-package function with a single
+// string parameter.
+func delegatesTo(fn *ssa.Function) (*ssa.Function, ssa.Value) {
+	var g *ssa.Function
+	var arg ssa.Value
+	for _, b := range fn.Blocks {
+		for _, ins := range b.Instrs {
+			r, ok := ins.(*ssa.Return)
+			if !ok {
+				continue
+			}
+			if len(r.Results) != 1 {
+				return nil, nil
+			}
+			call, ok := r.Results[0].(*ssa.Call)
+			if !ok {
+				return nil, nil
+			}
+			callee := call.Common().StaticCallee()
+			if callee == nil || callee.Pkg != fn.Pkg || len(callee.Params) != 1 || len(call.Common().Args) != 1 || len(callee.Blocks) == 0 {
+				return nil, nil
+			}
+			if g != nil && g != callee {
+				return nil, nil
+			}
+			g, arg = callee, call.Common().Args[0]
+		}
+	}
+	return g, arg
+}
+
+// escapesItsParameter: g looks its parameter up in the reserved table, returns the parameter itself on every path
+// where it is not reserved and a different value derived from it where it is. "" when that holds, else the reason.
+func escapesItsParameter(g *ssa.Function, table *types.Var, c *core.Ctx) string {
+	lk := findReservedLookup(g, table, c)
+	if lk == nil {
+		return "no lookup"
+	}
+	if lk.err != "" {
+		return lk.err
+	}
+	param := ssa.Value(g.Params[0])
+	if lk.key != param {
+		return "looks up something other than its parameter"
+	}
+	if len(lk.reservedSucc.Preds) != 1 {
+		return "shape not recognised"
+	}
+	nPlain, nEsc := 0, 0
+	var expand func(v ssa.Value, origin *ssa.BasicBlock, depth int) string
+	expand = func(v ssa.Value, origin *ssa.BasicBlock, depth int) string {
+		if phi, ok := v.(*ssa.Phi); ok && depth < 4 {
+			for i, e := range phi.Edges {
+				if why := expand(e, phi.Block().Preds[i], depth+1); why != "" {
+					return why
+				}
+			}
+			return ""
+		}
+		if lk.reservedSucc.Dominates(origin) {
+			nEsc++
+			if sameValue(v, param) {
+				return "a reserved identifier is returned unescaped"
+			}
+			if !dependsOn(v, param, 0) {
+				return "the escaped spelling is not derived from the identifier"
+			}
+			return ""
+		}
+		nPlain++
+		if !sameValue(v, param) {
+			return "the identifier returned when not reserved is not the one looked up"
+		}
+		return ""
+	}
+	for _, b := range g.Blocks {
+		for _, ins := range b.Instrs {
+			if r, ok := ins.(*ssa.Return); ok && len(r.Results) == 1 {
+				if why := expand(r.Results[0], b, 0); why != "" {
+					return why
+				}
+			}
+		}
+	}
+	if nPlain == 0 || nEsc == 0 {
+		return "does not return both spellings"
+	}
+	return ""
 }
 
 type reservedLookup struct {
